@@ -52,6 +52,11 @@ def run(R):
     with R.clause('D3', 'SIB', floor=1, desc='sync and awaited form have the same event skeleton') as c:
         a = skeleton(sync, after_async=True)
         b = skeleton(asy)
+        from collections import Counter
+        ca, cb = Counter(x for x in a if x != 'for'), Counter(x for x in b if x != 'for')
+        if a != b and (ca == cb or not known_loop_form(sync) or not known_loop_form(asy)):
+            # the same events in another arrangement (one of the two loops rewritten): equivalence of the arrangements is beyond this rule
+            raise AnalysisError('C16-D3: the two forms make the same calls in a different textual order; cannot compare them (sync %s / async %s)' % (a, b))
         c.check(a == b, asy, None, 'same sequence of sends / waits / collects / kill / raise in both forms',
                 witness='sync %s vs async %s' % (a, b), kind='ast', tag='skeleton')
     with R.clause('D4', 'TAB', floor=6, desc='prompt assignment text does not contain the awaited literal; the displayed prompt does') as c:
@@ -64,6 +69,15 @@ def waits(f):
     return cfg_nodes_with_call(f, lambda k: callee_last(k) == '_expect_prompt')
 
 
+def known_loop_form(f):
+    """first line before the loop, then `for <name> in <lines>[a:b]` or `for <name> in <lines>` (the latter is judged, and is wrong)"""
+    loops = [n for n in iter_nodes(f.node) if isinstance(n, ast.For)]
+    if len(loops) != 1 or not isinstance(loops[0].target, ast.Name):
+        return False
+    it = loops[0].iter
+    return isinstance(it, ast.Name) or (isinstance(it, ast.Subscript) and isinstance(it.slice, ast.Slice) and isinstance(it.value, ast.Name))
+
+
 def check_collect(c, f, recv):
     g = f.cfg
     loops = [n for n in iter_nodes(f.node) if isinstance(n, ast.For)]
@@ -73,7 +87,10 @@ def check_collect(c, f, recv):
     lines = loop.iter.value.id if isinstance(loop.iter, ast.Subscript) and isinstance(loop.iter.value, ast.Name) else 'cmdlines'
     rcands = [k.func.value.id for k in calls_in(loop) if callee_last(k) == 'append' and isinstance(k.func.value, ast.Name)]
     RES = rcands[0] if rcands else 'res'
-    c.check(norm(loop.iter) == '%s[1:]' % lines and isinstance(loop.target, ast.Name), f, loop, 'the loop covers every remaining line, in order',
+    # the known way of writing it: first line before the loop, the loop over lines[1:].  Another slice is a violation; another way of
+    # writing the loop altogether (enumerate with a first-line test, an index loop) is not something this rule can judge
+    c.need(known_loop_form(f), '%s: the loop over the command lines is written in a form the rule does not know (%s)' % (f.qual, norm(loop.iter)))
+    c.check(norm(loop.iter) == '%s[1:]' % lines, f, loop, 'the loop covers every remaining line, in order',
             witness=norm(loop.iter), kind='ast', tag='loop-lines')
     lv = loop.target.id
     sends = cfg_nodes_with_call(f, lambda k: callee_last(k) == 'sendline')
@@ -240,15 +257,15 @@ def check_setup(c, repo, sync):
     c.check(ok, sync, e[0].ast if e else None, 'an empty command is rejected before anything is sent', kind='path', tag='empty-command')
     init = repo.func('replwrap:REPLWrapper.__init__')
     gi = init.cfg
-    t = [x for x in gi.nodes if x.kind == 'test' and norm(x.ast) == 'prompt_change is None']
-    c.need(len(t) == 1, '__init__: prompt_change test not found')
-    tr, fr = guard_region(gi, t[0], 'true'), guard_region(gi, t[0], 'false')
-    p1 = [n for n in tr if n.kind == 'stmt' and stmt_assigns_attr(n.ast, 'prompt') is not None]
-    p2 = [n for n in fr if n.kind == 'stmt' and stmt_assigns_attr(n.ast, 'prompt') is not None]
-    ok = len(p1) == 1 and is_name(p1[0].ast.value, 'orig_prompt') and len(p2) == 1 and is_name(p2[0].ast.value, 'new_prompt')
-    c.check(ok, init, t[0].ast, 'the wrapper waits for the new prompt iff it changed it', kind='ast', tag='which-prompt')
-    sp_ = [n for n in fr if any(callee_last(k) == 'set_prompt' for k in node_calls(n))]
-    okf = len(sp_) == 1 and 'prompt_change.format(new_prompt, continuation_prompt)' in norm(sp_[0].ast)
+    PC = 'prompt_change is None'
+    pa = [n for n in gi.nodes if n.kind == 'stmt' and stmt_assigns_attr(n.ast, 'prompt') is not None]
+    p1 = [n for n in pa if (PC, True) in conditions(gi, n)]
+    p2 = [n for n in pa if (PC, False) in conditions(gi, n)]
+    ok = len(pa) == 2 and len(p1) == 1 and is_name(p1[0].ast.value, 'orig_prompt') and len(p2) == 1 and is_name(p2[0].ast.value, 'new_prompt')
+    c.check(ok, init, pa[0].ast if pa else None, 'the wrapper waits for the new prompt iff it changed it', kind='path', tag='which-prompt')
+    sp_ = [n for n in gi.nodes if n.ast is not None and any(callee_last(k) == 'set_prompt' for k in node_calls(n))]
+    okf = len(sp_) == 1 and (PC, False) in conditions(gi, sp_[0]) and 'prompt_change.format(new_prompt, continuation_prompt)' in norm(sp_[0].ast)
+    t = [sp_[0]] if sp_ else [gi.entry]
     c.check(okf, init, sp_[0].ast if sp_ else t[0].ast, 'the prompt change command is formatted with (new prompt, continuation prompt) in that order', kind='ast', tag='format-order')
     spf = repo.func('replwrap:REPLWrapper.set_prompt')
     gsp = spf.cfg
